@@ -2,7 +2,7 @@
 from __future__ import annotations
 
 from ..selftest import B, M
-from .common import F_BASE, F_BIN, F_CONT, F_QUAL, F_QUAN
+from .common import F_BASE, F_BC, F_BIN, F_CONT, F_QUAL, F_QUAN
 from . import c04, c07, quant
 
 EXPLANATION = (
@@ -16,10 +16,14 @@ EXPLANATION = (
     "only through index-aligned pandas operations -- groupby, crosstab, boolean masks -- never "
     "positionally after .values / list()); R-index-kept (frames built from plain lists are stored "
     "with index=X.index); R-row-order-free (ties between equal target rates are broken by the modality, "
-    "never by first appearance in the rows: target_rate groups with sorted keys before its stable sort)."
+    "never by first appearance in the rows: target_rate groups with sorted keys before its stable sort); "
+    "R-adjacency-order (grouped tables keep the feature's order, never the lexicographic order of label strings, "
+    "which changes with the scale of the feature); R-viability-formula (adjacent rates are compared with isclose, "
+    "not exactly: float means depend on the summation order of the rows); R-leader-is-max / R-value-truthiness "
+    "(a boundary equal to 0.0 is a value like any other)."
 )
 NOT_DECIDED = "the invariance itself on data (numerical equality of partitions); ties between equal target rates of categories"
-FLOORS = {"R-order-only": 4, "R-order-statistic": 3, "R-label-injective": 1, "R-aligned-pairs": 4, "R-index-kept": 1, "R-row-order-free": 2}
+FLOORS = {"R-order-only": 4, "R-order-statistic": 3, "R-label-injective": 1, "R-aligned-pairs": 4, "R-index-kept": 1, "R-row-order-free": 2, "R-adjacency-order": 3, "R-viability-formula": 1, "R-leader-is-max": 1, "R-value-truthiness": 1}
 
 
 def check(ctx):
@@ -29,6 +33,13 @@ def check(ctx):
     quant.check_aligned_pairs(ctx, "R-aligned-pairs")
     c07.rule_index_kept(ctx)
     quant.check_row_order_free(ctx, "R-row-order-free")
+    from . import carver
+    from .truthiness import check_or_default
+
+    carver.check_adjacency_order(ctx, "R-adjacency-order")
+    carver.check_viability_formula(ctx, "R-viability-formula")
+    quant.check_leader_is_max(ctx, "R-leader-is-max")
+    check_or_default(ctx, "R-value-truthiness", [f for f in ctx.repo.all_functions() if "/selectors/" not in f.module.relpath])
 
 
 MUTANTS = [
@@ -42,6 +53,9 @@ MUTANTS = [
     M("crosstab on positional arrays", [(F_BIN, "                xtab = crosstab(X[feature], y)", "                xtab = crosstab(X[feature].values, y.values)")], "R-aligned-pairs", "BinaryCarver._aggregator"),
     M("continuous aggregate grouped by a list", [(F_CONT, "                yval = y.groupby(X[feature]).apply(lambda u: list(u))  # pylint: disable=W0108", "                yval = y.groupby(list(X[feature])).apply(lambda u: list(u))  # pylint: disable=W0108")], "R-aligned-pairs", "ContinuousCarver._aggregator"),
     M("target_rate groups in order of first appearance", [(F_BASE, "    rates = y.groupby(x, dropna=dropna).mean().sort_values(ascending=ascending)", "    rates = y.groupby(x, dropna=dropna, sort=False).mean().sort_values(ascending=ascending)")], "R-row-order-free", "target_rate"),
+    M("re-grouped crosstab ordered by label strings", [(F_BC, "combi_xagg = xagg.groupby(groups, dropna=False, sort=False).sum()", "combi_xagg = xagg.groupby(groups, dropna=False).sum()")], "R-adjacency-order", "xagg_apply_order"),
+    M("largest boundary 0.0 taken for 'no boundary'", [(F_BASE, "                if len(which_to_keep) > 0:\n                    kept_value = max(which_to_keep)\n                # case 1: there is only str_nan in the group (it was not grouped)\n                else:\n                    kept_value = group_to_discard[0]", "                kept_value = max(which_to_keep, default=None) or group_to_discard[0]")], "R-value-truthiness", "convert_to_values"),
+    M("adjacent means compared exactly instead of isclose", [(F_BC, "            distinct_rates_train = not any(\n                isclose(train_rates[\"target_rate\"][1:], train_rates[\"target_rate\"].shift(1)[1:])\n            )", "            distinct_rates_train = all(train_rates[\"target_rate\"].diff()[1:] != 0)")], "R-viability-formula"),
     M("index=X.index dropped", [(F_BASE, "{feature: values for feature, values in all_transformed}, index=X.index\n", "{feature: values for feature, values in all_transformed}\n")], "R-index-kept"),
 ]
 BENIGN = [
